@@ -279,6 +279,26 @@ def strip_field(rows, name):
     return [("obj", [(k, x) for k, x in r[1] if k != nm]) if r[0] == "obj" else r for r in rows]
 
 
+def sparse_rows(rnd, n):
+    """Rows over two values in which k1 / k2 / k3 are each present or not: the same present values turn up in different columns."""
+    vals = [("num", "1"), ("str", cps("x")), ("null",)]
+    rows = []
+    for i in range(n):
+        m = [(cps(k), rnd.choice(vals)) for k in ("k1", "k2", "k3") if rnd.random() < 0.5]
+        if rnd.random() < 0.5:
+            m.append((cps("g"), ("str", cps(rnd.choice(["a", "b"])))))
+        rows.append(("obj", m))
+    return rows
+
+
+def sparse_cfg(rnd, **kw):
+    """--unique on two or three selections of k1 / k2 / k3 (to go with sparse_rows)."""
+    names = rnd.sample(["k1", "k2", "k3"], rnd.choice([2, 3]))
+    c = mkcfg(unique=True, selects=[{"name": cps("S%d" % i), "e": field(nm)} for i, nm in enumerate(names)])
+    c.update(kw)
+    return c
+
+
 def rand_cfg(rnd, focus="all"):
     """A random configuration over the core fragment.  focus narrows the family to the property under test."""
     c = mkcfg()
